@@ -21,9 +21,17 @@ func parseFloatLine(components []string) (f float64, err error) {
 }
 
 // colorChannel turns a channel given as a real number in [0, 1] into the
-// nearest of the 256 levels a color.RGBA can hold.
+// nearest of the 256 levels a color.RGBA can hold. MTL allows values outside
+// of [0, 1]; they saturate.
 func colorChannel(f float64) uint8 {
-	return uint8(math.Round(f * 255))
+	v := math.Round(f * 255)
+	if !(v > 0) { // also NaN
+		return 0
+	}
+	if v > 255 {
+		return 255
+	}
+	return uint8(v)
 }
 
 func parseColorLine(components []string) (color.Color, error) {
